@@ -157,7 +157,14 @@ def explore(ctx):
                         g["lib"] = {"public.verticalOrigin": v}
         desc["info"] = info
         kw = {"useProductionNames": False}
-        case = {"font": jsonable(desc), "flavor": flavor, "lib": lib, "vertical": vertical}
+        if flavor == "otf" and i % 4 == 1:
+            # unrounded charstrings: fractional outline extrema (fractions on both sides of 1/2), boxes by floor / ceil
+            kw["roundTolerance"] = rng.choice([0, 0.125, 0.25])
+            for g in desc["glyphs"]:
+                fx, fy = (Fr(rng.choice([1, 4, 5, 6, 7]), 8) for _ in range(2))
+                g["contours"] = [[(x + fx, y + fy, t) for x, y, t in c] for c in g["contours"]]
+            ctx.klass("otf with roundTolerance < 1/2 and fractional extrema")
+        case = {"font": jsonable(desc), "flavor": flavor, "lib": lib, "vertical": vertical, "options": jsonable(kw)}
         try:
             tt = (ufo2ft.compileTTF if flavor == "ttf" else ufo2ft.compileOTF)(build_font(desc, lib), **kw)
             # the object as returned: header fields exactly as ufo2ft computed them
